@@ -6,6 +6,23 @@ BASELINE = ("cd /repo && cargo nextest run --workspace --no-fail-fast --test-thr
             "|| cargo test --workspace --no-fail-fast --offline")
 
 CHECKS = {
+    "C08": dict(
+        category="exploration",
+        text=("The real diagonal and low-rank estimators (reached through cfg-guarded hooks) are fed generated windows. Exactness: for "
+              "product Gaussians (sigma over 12 decades, d up to 50) and any >= 3 distinct draws - spread, tightly clustered or collinear - "
+              "with exact gradients the diagonal estimate must equal the target's mean and sigma to rounding, and an affine change of the "
+              "target must map the estimate; for correlated Gaussians and draws spanning R^d the low-rank estimate must whiten the target "
+              "(spectrum of J Sigma J' within the cut-off band, whitened gradient = -position for cut-off 1). Robustness: windows with "
+              "constant, zero, 1e+-300, NaN and +-inf entries must leave every scale finite and > 0, scale x inverse = 1, log-determinant "
+              "finite, and invalid coordinates (diagonal) / the whole update (low-rank) unchanged bit-for-bit. End to end (public API): "
+              "fisher_distance vanishes on product Gaussians once the first estimate is in use."),
+        design_ref="DESIGN.md section 3, C08",
+        note=("Low-rank exactness carries the estimator's own regularisation error (about gamma * lambda_max^2 / smin(XX')); cases where it "
+              "exceeds 2 % are skipped. The diagonal estimator clamps variances to [1e-20,1e20]; equivariance is judged inside that range. "
+              "Exact recovery is promised (and judged) for the gradient-based estimate; for the draw-based option only the mean and "
+              "equivariance are judged. A non-finite translation caused by non-finite draws is not a scale and is not judged."),
+        technique="proptest-generated draw/gradient windows vs closed-form Gaussian truth, metamorphic affine equivariance, robustness invariants",
+    ),
     "C07": dict(
         category="exploration",
         text=("Open loop: generated acceptance sequences (all-0, all-1, step changes, near-target, length up to 2000) are fed to the real "
